@@ -924,7 +924,7 @@ INFO['C20'] = {
               'is_permutation on length pairs up to (3,3) quick / (4,4) thorough: value equals "some bijection matches" (all 64-bit values, '
               'not an alphabet); rewrite rules re-extracted from clang\'s AST of static_permutation.hpp on every run; the witness of '
               'every proved obligation and every counterexample is instantiated by g++ (static_assert)',
-    'outside': 'longer sequences; header shapes the rule extractor does not recognise make the check inconclusive (exit 2)',
+    'outside': 'longer sequences; header shapes the rule extractor does not recognise make the check inconclusive (exit 2) - before giving up, such a unit runs a concrete g++ instantiation sweep (sort: every sequence of the unit length, and one longer from length 4, over {0,1,7,SIZE_MAX}; is_permutation: every pair over {0,3,SIZE_MAX}) whose only possible contribution is a counterexample, never a pass',
     'cuts': 'own evaluator of the template metaprogram (structural matching of partial specialisations, conditional_t forks, is_same, member aliases, static constexpr data members, constexpr functions, std::min/std::max, folds, variable templates)',
     'assumptions': ['most-specialised-match selection as implemented in engine/tmpl.py (sufficient for this header; differential g++ instantiation of witnesses)'],
 }
